@@ -24,6 +24,10 @@ pub fn plain_steps() -> Vec<Step> {
         Step::Indices(vec![AIdx::Slice(Idx::N(1), Idx::N(0))]),
         Step::Indices(vec![n(-1)]),
         Step::Indices(vec![AIdx::One(Idx::Last(1))]),
+        Step::Indices(vec![AIdx::Slice(Idx::Last(1), Idx::Last(2))]),
+        Step::Indices(vec![AIdx::Slice(Idx::Last(0), Idx::Last(1))]),
+        Step::Indices(vec![AIdx::Slice(Idx::Last(-1), Idx::Last(0))]),
+        Step::Indices(vec![AIdx::Slice(Idx::N(-1), Idx::N(0))]),
     ]
 }
 
